@@ -193,6 +193,21 @@ func manifestPaths(raw []byte) (map[string]string, error) {
 	return out, nil
 }
 
+// c14CommitRepr draws, when a commit lands, what the back end hands back for it: `TryCommit`
+// returns `any`, and nil (nothing to tell) or a zero value are as legal as a revision string.
+func c14CommitRepr(r *core.Run) func(int) any {
+	return func(rev int) any {
+		switch r.Intn(5, "commit-representation") {
+		case 3:
+			r.Probe("commit-representation-nil")
+			return nil
+		case 4:
+			return rev - rev // an integer id that happens to be zero
+		}
+		return fmt.Sprintf("rev-%d", rev)
+	}
+}
+
 func runC14(r *core.Run) {
 	cancelMode := r.Intn(c14CancelModes, "cancel")
 	if cancelMode == 7 || cancelMode == 8 {
@@ -213,6 +228,7 @@ func runC14(r *core.Run) {
 	vcs.ExternalCommit(map[string][]byte{manifest: txt, "/release/out/old.binarypb": []byte("old endorsement")})
 	sc := &c14Script{r: r, vcs: vcs, manifest: manifest, cancelMode: cancelMode}
 	vcs.Between, vcs.Decide = sc.between, sc.decide
+	vcs.CommitRepr = c14CommitRepr(r)
 	startCalls := len(vcs.Calls)
 	img := images.Pool()[0]
 	q := Req{Image: img, OutDir: "out", Candidate: "c14", SNP: true, LaunchVmsas: 2, ClSpec: 7, Timestamp: a.Now, Retries: budget}
@@ -235,6 +251,7 @@ func runC14(r *core.Run) {
 		ws          int
 		getErr      error
 		lastErr     error
+		endErr      error // error of the attempt's last seam call (nil when that call succeeded)
 		readManif   bool
 		wroteManif  bool
 		commitOK    bool
@@ -251,7 +268,7 @@ func runC14(r *core.Run) {
 			if c.Err == nil {
 				x.ws = len(vcs.Spaces) // provisional; fixed below
 			}
-			x.lastErr = c.Err
+			x.lastErr, x.endErr = c.Err, c.Err
 			atts = append(atts, x)
 		}
 	}
@@ -274,6 +291,9 @@ func runC14(r *core.Run) {
 			if !(asVCS(c.Err, &ve) && ve.NotFound) {
 				x.lastErr = c.Err
 			}
+		}
+		if c.Name != "Destroy" {
+			x.endErr = c.Err
 		}
 		switch c.Name {
 		case "ReadFile":
@@ -347,6 +367,14 @@ func runC14(r *core.Run) {
 	}
 	if (err == nil) != (succeeded > 0) {
 		r.Fail("success-misreported", "RetrySubmit", "%s: submission returned %v but %d commits succeeded", where, err, succeeded)
+	}
+	// Progress while budget remains: the last thing the final attempt did with the back end was a
+	// call that failed with an error the back end marks retriable, the caller did not cancel, and
+	// attempts were left — the submission gave up although the budget says to try again.
+	if n := len(atts); n > 0 && n < allowed && err != nil && succeeded == 0 && !sc.cancelled && !sc.runaway {
+		if last := atts[n-1]; last.endErr != nil && vcs.RetriableError(last.endErr) {
+			r.Fail("gave-up-on-retriable", "RetrySubmit", "%s: attempt %d ended with a failure the back end marks retriable (%v) and %d attempts were left, but no further attempt was made", where, n, last.endErr, allowed-n)
+		}
 	}
 	if succeeded > 1 {
 		r.Fail("success-misreported", "double-commit", "%s: %d commits succeeded", where, succeeded)
@@ -489,6 +517,7 @@ func runC14Multi(r *core.Run) {
 	for i := 0; i < 2; i++ {
 		b := &c14Backend{v: seams.NewSimVCS(r, "/release"), kind: r.Intn(4, "backend-outcome"), at: r.Intn(c14CallsPerAttempt, "backend-fault-call")}
 		b.v.Between, b.v.Decide = b.between, b.decide
+		b.v.CommitRepr = c14CommitRepr(r)
 		bs = append(bs, b)
 		list = append(list, b.v)
 	}
